@@ -705,7 +705,6 @@ Qed.
 
 Definition affinity_ok (w : world) : Prop :=
   forall p t, List.In p (w_pods w) -> p_new p = true -> List.In t (p_aff p) ->
-    dom_of w p (t_key t) <> [] /\
     forall d, List.In d (dom_of w p (t_key t)) ->
       supported w p t d = true \/
       (term_matches w p t p = true /\ bound_usable_match w p t = false /\ mutual_openers w p t d = false).
@@ -714,34 +713,29 @@ Lemma affinity_ok_iff w : affinity_ok_b w = true <-> affinity_ok w.
 Proof.
   unfold affinity_ok_b, affinity_ok. rewrite forallb_forall. split.
   - intros H p t Ip N It. specialize (H p Ip). rewrite N in H. simpl in H. rewrite forallb_forall in H.
-    specialize (H t It). unfold aff_term_ok in H. apply andb_true_iff in H. destruct H as [L H]. split.
-    + intros E. rewrite E in L. discriminate.
-    + intros d Id. rewrite forallb_forall in H. specialize (H d Id). apply orb_true_iff in H. destruct H as [H|H]; [left; exact H|].
-      right. rewrite !andb_true_iff, !negb_true_iff in H. tauto.
+    specialize (H t It). unfold aff_term_ok in H.
+    intros d Id. rewrite forallb_forall in H. specialize (H d Id). apply orb_true_iff in H. destruct H as [H|H]; [left; exact H|].
+    right. rewrite !andb_true_iff, !negb_true_iff in H. tauto.
   - intros H p Ip. destruct (p_new p) eqn:N; [|reflexivity]. simpl. apply forallb_forall. intros t It.
-    destruct (H p t Ip N It) as [NE A]. unfold aff_term_ok. apply andb_true_iff. split.
-    + destruct (dom_of w p (t_key t)); [congruence | reflexivity].
-    + apply forallb_forall. intros d Id. destruct (A d Id) as [S|(M & B & O)]; [rewrite S; reflexivity|].
-      rewrite M, B, O. apply orb_true_r.
+    pose proof (H p t Ip N It) as A. unfold aff_term_ok.
+    apply forallb_forall. intros d Id. destruct (A d Id) as [S|(M & B & O)]; [rewrite S; reflexivity|].
+    rewrite M, B, O. apply orb_true_r.
 Qed.
 
 Definition spread_ok (w : world) : Prop :=
   forall p c, List.In p (w_pods w) -> p_new p = true -> List.In c (p_spread p) -> sp_in_scope w p c = true ->
-    dom_of w p (s_key c) <> [] /\
     forall d, List.In d (dom_of w p (s_key c)) -> sp_ok w p c d = true \/ sp_later_ok w p c d = true.
 
 Lemma spread_ok_iff w : spread_ok_b w = true <-> spread_ok w.
 Proof.
   unfold spread_ok_b, spread_ok. rewrite forallb_forall. split.
   - intros H p c Ip N Ic S. specialize (H p Ip). rewrite N in H. simpl in H. rewrite forallb_forall in H.
-    specialize (H c Ic). unfold spread_c_ok in H. rewrite S in H. simpl in H. apply andb_true_iff in H. destruct H as [L H]. split.
-    + intros E. rewrite E in L. discriminate.
-    + intros d Id. rewrite forallb_forall in H. apply orb_true_iff. apply H. exact Id.
+    specialize (H c Ic). unfold spread_c_ok in H. rewrite S in H. simpl in H.
+    intros d Id. rewrite forallb_forall in H. apply orb_true_iff. apply H. exact Id.
   - intros H p Ip. destruct (p_new p) eqn:N; [|reflexivity]. simpl. apply forallb_forall. intros c Ic.
     unfold spread_c_ok. destruct (sp_in_scope w p c) eqn:S; [|reflexivity]. simpl.
-    destruct (H p c Ip N Ic S) as [NE A]. apply andb_true_iff. split.
-    + destruct (dom_of w p (s_key c)); [congruence | reflexivity].
-    + apply forallb_forall. intros d Id. apply orb_true_iff. apply A. exact Id.
+    pose proof (H p c Ip N Ic S) as A.
+    apply forallb_forall. intros d Id. apply orb_true_iff. apply A. exact Id.
 Qed.
 
 Definition interpod_ok (w : world) : Prop := anti_ok w /\ affinity_ok w /\ spread_ok w.
